@@ -60,6 +60,8 @@ const (
 type bmember struct {
 	key, value, ann string
 	showAnn         string // ann as written in the replay description, when ann is long
+
+	probes []string // scalars.go: document tokens around the rules of the member
 }
 
 func bm(key, value, ann string) bmember { return bmember{key: key, value: value, ann: ann} }
@@ -171,14 +173,18 @@ func (g *brokenGen) soundMember(slot int, object bool, usesRule *bool, anon *boo
 	r := g.r
 	key := fmt.Sprintf("%q", fmt.Sprintf("k%d_<i>", slot))
 	for {
-		switch x := r.Intn(24); {
+		switch x := r.Intn(29); {
+		case x >= 24:
+			// a scalar with rules whose numerals / lengths matter (scalars.go)
+			f := scalarMember(r)
+			return bmember{key: key, value: f.example, ann: f.rule(), probes: f.probes}
 		case x < 4:
 			return bm(key, "<i>", "{min: 0}")
 		case x < 7:
 			return bm(key, `"abc"`, []string{"{minLength: 1}", "{maxLength: 8}", "{minLength: 2, maxLength: 8}"}[r.Intn(3)])
 		case x < 10:
 			k := []int{4, 12, 40}[r.Intn(3)]
-			return bmember{key, fmt.Sprintf("%q", "v"+strconv.Itoa(r.Intn(k))), "{enum: " + enumList(k) + "}", "{enum: " + enumShow(k) + "}"}
+			return bmember{key: key, value: fmt.Sprintf("%q", "v"+strconv.Itoa(r.Intn(k))), ann: "{enum: " + enumList(k) + "}", showAnn: "{enum: " + enumShow(k) + "}"}
 		case x < 13:
 			if g.rule == nil {
 				continue
@@ -239,7 +245,11 @@ func (g *brokenGen) defectMember(object bool, self string, usesRule *bool, anon 
 	r := g.r
 	key := `"d"`
 	for {
-		switch r.Intn(19) {
+		switch r.Intn(23) {
+		case 19, 20, 21, 22:
+			// the example on the wrong side of a numeric rule, by a fraction (scalars.go)
+			f := numField(r, true)
+			return bmember{key: key, value: f.example, ann: f.rule(), probes: f.probes}, "example-off-by-a-fraction-" + strings.Split(f.kind, "/")[0]
 		case 0, 1:
 			return bm(key, `"ab"`, "{minLength: 5}"), "example-minLength"
 		case 2:
@@ -248,7 +258,7 @@ func (g *brokenGen) defectMember(object bool, self string, usesRule *bool, anon 
 			return bm(key, `9`, "{max: 5}"), "example-max"
 		case 4:
 			k := 3 + r.Intn(30)
-			return bmember{key, `"zz"`, "{enum: " + enumList(k) + "}", "{enum: " + enumShow(k) + "}"}, "example-enum"
+			return bmember{key: key, value: `"zz"`, ann: "{enum: " + enumList(k) + "}", showAnn: "{enum: " + enumShow(k) + "}"}, "example-enum"
 		case 5:
 			if g.rule == nil {
 				continue
@@ -327,7 +337,17 @@ func (g *brokenGen) add(t *tspec) *tspec {
 func (g *brokenGen) leaf() *tspec {
 	r := g.r
 	t := &tspec{name: fmt.Sprintf("@L%d", len(g.f.nodes))}
-	switch x := r.Intn(10); {
+	switch x := r.Intn(13); {
+	case x >= 10:
+		// a scalar type with rules whose numerals / lengths matter (scalars.go)
+		f := scalarMember(r)
+		t.text, t.shape, t.value = f.example+" // "+f.rule(), shScalar, f.example
+		t.probes = map[string][]string{"\x00": f.probes}
+		if r.Intn(5) == 0 {
+			d := numField(r, true)
+			t.sound, t.text, t.value, t.defect = t.text, d.example+" // "+d.rule(), d.example, "example-off-by-a-fraction-"+strings.Split(d.kind, "/")[0]
+			t.probes["\x00d"] = d.probes
+		}
 	case x < 3:
 		t.text, t.shape, t.value = `1 // {min: 0}`, shScalar, `1`
 		if r.Intn(6) == 0 {
@@ -405,6 +425,24 @@ func (g *brokenGen) big(pDefect int) *tspec {
 	}
 	t.text = b.render(true)
 	t.members = b.members()
+	// the probes of the members, by member name (array elements: of no member)
+	t.probes = map[string][]string{}
+	ms := append([]bmember{}, b.unit...)
+	if b.defect != nil {
+		ms = append(ms, *b.defect)
+	}
+	for n, m := range ms {
+		if len(m.probes) == 0 {
+			continue
+		}
+		if !b.object {
+			t.probes[fmt.Sprintf("\x00%d", n)] = m.probes
+			continue
+		}
+		for i := 0; i < b.reps; i++ {
+			t.probes[unquoteKey(strings.ReplaceAll(m.key, "<i>", strconv.Itoa(i)))] = m.probes
+		}
+	}
 	if t.members > 8 {
 		t.recipe = b.recipe()
 	}
